@@ -49,6 +49,7 @@ type hist struct {
 	tcount int
 	lastT  map[string][]byte // last matched reply datagram per address, for replays
 	keep   []sim.Out
+	dense  bool
 }
 
 func fam(ip net.IP) int {
@@ -115,6 +116,16 @@ func (h *hist) genPeers() {
 			p.id = h.peers[rng.Intn(len(h.peers))].id
 		}
 		h.peers = append(h.peers, p)
+		if ip4 := p.addr.IP.To4(); ip4 != nil && rng.Intn(6) == 0 {
+			// the same contact with its IPv4 address in the other byte form (4 vs 16 bytes): one node, not two
+			twin := p
+			if len(p.addr.IP) == 4 {
+				twin.addr = &net.UDPAddr{IP: ip4.To16(), Port: p.addr.Port}
+			} else {
+				twin.addr = &net.UDPAddr{IP: ip4, Port: p.addr.Port}
+			}
+			h.peers = append(h.peers, twin)
+		}
 	}
 	h.peers = append(h.peers,
 		peer{id: h.root, addr: mkAddr()},                                             // claims our own ID
@@ -371,6 +382,9 @@ func (h *hist) evResponse(questionable bool) {
 	}
 	t, _ := q.Str("t")
 	kind := rng.Intn(12)
+	if h.dense && kind > 4 && rng.Intn(4) != 0 {
+		kind = rng.Intn(3)
+	}
 	if questionable && kind >= 6 {
 		kind = 100 // let it fail
 	}
@@ -536,8 +550,18 @@ func (h *hist) run(events int) {
 	defer srv.Close()
 	h.tr.Emit(sim.M{"seg": h.seg, "e": "Start", "root": sim.Hex(h.root[:]), "nosec": h.nosec})
 	var snap []dht.VerifNode
+	h.dense = rng.Intn(4) == 0
+	dense := h.dense // a flavour that builds large tables of good contacts and then asks for them
 	for i := 0; i < events; i++ {
-		switch x := rng.Intn(100); {
+		x := rng.Intn(100)
+		if dense {
+			if i < events*2/3 {
+				x = 38 + rng.Intn(24) // own pings, mostly answered
+			} else {
+				x = rng.Intn(38) // inbound queries
+			}
+		}
+		switch {
 		case x < 38:
 			h.evQuery()
 		case x < 62:
